@@ -65,6 +65,7 @@ pub fn profile() -> Profile {
     p.hostile = true;
     p.p_odd_spelling = 90;
     p.kind_w = [30, 10, 18, 14, 12, 6, 8, 0, 3];
+    p.grandfathered_faucet = true;
     p
 }
 
@@ -74,7 +75,7 @@ pub fn run(ctx: &Ctx) -> (Outcome, String, Option<bool>) {
         p.max_steps = 30;
         p.max_txs = 10;
     }
-    let out = super::hist::run_histories(ctx, "hostile-histories", p, ctx.scale(400, 8000), C09::default);
+    let out = super::hist::run_histories(ctx, "hostile-histories", p, ctx.scale(3000, 30000), C09::default);
     let rule = "Generated histories in adversarial mode: ~43% of transactions mutated (off-by-one values, repeated/missing/spent inputs, dropped or garbage covenants, corrupted or foreign signatures, MAX_COINVAL+1, 256 outputs, fee-1, swapped kind, random data, duplicates, empty transactions, destroyed outputs), zero-valued and maximal pool requests, pool keys in 6 alternative spellings (~35% of requests), every proposer delta class, every fee-multiplier class, undecodable stake documents. Oracle: every call of apply_tx_batch, seal, header, next_unsealed, to_block/from_block runs under catch_unwind (engine built with overflow checks and debug assertions); any panic is a violation keyed by (panic site, message class); a watchdog turns a hang into exit 2. Non-trivial = a case in which >=1 hostile shape reached the STF and the call returned a rejection or sealing survived; distinct by the set of hostile shapes in the case.".to_string();
     (out, rule, None)
 }
